@@ -10,7 +10,7 @@ CLASSES = ["base", "subst-header", "subst-payload", "subst-sig", "sig-bitflip", 
 
 def keys_for(tier):
     if tier == "thorough":
-        return "oct:32,oct:48,oct:64,oct:200,rsa:2048,rsa:3072,rsa:4096,rsapss:2048,ec:P-256,ec:P-384,ec:P-521,ec:secp256k1,okp:Ed25519,okp:Ed448"
+        return "oct:32,oct:48,oct:64,oct:200,rsa:2048,rsa:2050,rsa:3072,rsa:4096,rsapss:2048,ec:P-256,ec:P-384,ec:P-521,ec:secp256k1,okp:Ed25519,okp:Ed448"
     return "oct:64,rsa:2048,ec:P-256,ec:P-384,ec:P-521,ec:secp256k1,okp:Ed25519,okp:Ed448"
 
 
@@ -137,8 +137,35 @@ def run(tier, seed, replay):
             rep.sample(s)
         for k, v in r["c"].items():
             rep.count(k, v)
+    # key-rotation histories on the plain build (real allocator address reuse) and on the ASan build
+    if not replay:
+        for flav in ("plain", "asan"):
+            rb = vf.driver("d_rotate", flav)
+            routs, rcr = vf.run_shards(rb, ["--n", 12 if tier == "thorough" else 5, "--seed", seed], min(vf.NCPU, 14), rd, tag="rot-" + flav, timeout=1800)
+            rep.crash_violations(rcr, prefix="rotate-%s:" % flav)
+            for ev in vf.read_jsonl([]):
+                pass
+            for pth in routs:
+                with open(pth, errors="replace") as fh:
+                    for line in fh:
+                        if not line.startswith('["ROT"'):
+                            continue
+                        _, prov, key, rnd, step, expect, rc = json.loads(line)
+                        rep.evaluations += 1
+                        rep.count("rotation_verifies")
+                        rep.distinct.add(("rotate", flav, prov, key, step))
+                        if expect and rc != 0:
+                            rep.count("rotation_valid_rejected")
+                            rep.violation("rotation:rejects-current-key:%s:%s:%s" % (PROVS[prov], key, step.split(":")[0]),
+                                          "after key rotation a token signed by the key the checker holds now is rejected",
+                                          dict(build=flav, provider=PROVS[prov], key=key, round=rnd, step=step, rc=rc))
+                        if not expect and rc == 0:
+                            rep.violation("accept-invalid:rotation:%s:%s:%s" % (PROVS[prov], key, step.split(":")[0]),
+                                          "a token signed by a key the checker does not hold (any more) was accepted",
+                                          dict(build=flav, provider=PROVS[prov], key=key, round=rnd, step=step, rc=rc))
     c = rep.counters
     if not replay:
+        vf.need(rep, c.get("rotation_verifies", 0) > 500, "key-rotation histories did not run")
         vf.need(rep, c.get("base_rejected", 0) == 0, "%d unmutated base tokens were rejected (positive control broken)" % c.get("base_rejected", 0))
         for prov in ("openssl", "gnutls"):
             for alg in ("HS256", "RS256", "PS256", "ES256", "ES384", "ES512", "EdDSA"):
